@@ -207,6 +207,8 @@ def cmd_check(pid, tier, seed, opts):
     Bn = {k: r for kind, k, r in results if kind == "B"}
     # retry obligations that came back `unknown` once, alone, with a larger budget (load robustness)
     for key, r in list(A.items()):
+        if key in C and C[key].get("failures"):
+            continue            # engine C already has a concrete failing input for this function
         if r.get("status") == "ok" and any(o["result"] == "unknown" for o in r["obligations"]):
             from pyvc.verify import verify
             r2 = verify(key, timeout_ms=60000)
@@ -413,6 +415,42 @@ def cmd_explain(pid):
     return 0
 
 
+def cmd_prove(keys, slow_ms=300):
+    """engine A only, on the given contract / corollary keys (prefix match allowed); prints every obligation that is
+    not discharged, and the slow ones"""
+    load_all()
+    from pyvc.contract import COROLLARIES
+    from pyvc.verify import verify
+    allk = list(CONTRACTS) + list(COROLLARIES)
+    sel = []
+    for k in keys:
+        m = [a for a in allk if a == k] or [a for a in allk if k in a]
+        if not m:
+            print("no contract matches", k)
+        sel.extend(m)
+    rc = 0
+    for k in dict.fromkeys(sel):
+        r = verify(k)
+        err = (r.get("error") or "").strip().splitlines()[-1:] if r["status"] != "checker-error" else [r.get("error")]
+        print(k, r["status"], *err)
+        n = 0
+        for o in r["obligations"]:
+            n += 1
+            bad = o["result"] not in ("unsat", "reachable")
+            if bad or o["ms"] > slow_ms:
+                print("    %-40s %-9s %6d ms %-10s line %s" % (o["name"], o["result"], o["ms"], o.get("how", ""), o.get("line")))
+                if bad and o.get("goal"):
+                    print("        goal:", o["goal"][:400].replace("\n", " "))
+                if o.get("model"):
+                    print("        counter-model:", json.dumps(o["model"], default=str)[:400])
+            if bad:
+                rc = 1
+        if r["status"] != "ok":
+            rc = 1
+        print("  obligations", n, "wall", r.get("wall_s"))
+    return rc
+
+
 def cmd_list():
     load_all()
     from pyvc import bounded
@@ -431,6 +469,7 @@ def main(argv=None):
     r = sub.add_parser("replay"); r.add_argument("path")
     e = sub.add_parser("explain"); e.add_argument("pid")
     sub.add_parser("list")
+    pv = sub.add_parser("prove"); pv.add_argument("keys", nargs="+")
     s = sub.add_parser("selftest"); s.add_argument("--quick", action="store_true")
     a = ap.parse_args(argv)
     load_meta()
@@ -445,6 +484,8 @@ def main(argv=None):
         return cmd_explain(a.pid)
     if a.cmd == "list":
         return cmd_list()
+    if a.cmd == "prove":
+        return cmd_prove(a.keys)
     if a.cmd == "selftest":
         from pyvc import selftest
         return selftest.main(a.quick)
